@@ -68,4 +68,51 @@ def traceXK (fs : List Dir) : CSt → List XOp → List Resp
   | _, [] => []
   | s, op :: ops => (stepXK fs s op).2 :: traceXK fs (stepXK fs s op).1 ops
 
+/-! ## histories in which the loaded objects and the global setting drift apart, and loads from a named directory
+
+  taurex/opacity/interpolateopacity.py: InterpolatingOpacity.set_interpolation_mode — the public method of a SERVED object:
+      it switches that object only; neither the cache nor GlobalCache hears of it
+  taurex/cache/globalcache.py: GlobalCache()['xsec_interpolation'] = k written directly (not through the cache): the key is
+      stored, nothing is cleared — objects already loaded keep their mode, later loads take the new one
+  taurex/cache/opacitycache.py: load_opacity(opacity_path=<directory>, molecule_filter=[m]) — the `path` argument of
+      load_opacity_from_path is not used by the scan (every `discover()` reads GlobalCache()['xsec_path']): the molecule is
+      loaded from the CONFIGURED path exactly as a lookup would load it, the named directory is never opened, the configured
+      path stays what it was.
+  `stepY` extends `stepX` / `stepXK` (same state, same responses). -/
+
+inductive YOp where
+  | x (op : XOp)
+  /-- `cache[m].set_interpolation_mode(k)` on the object now in the dictionary (nothing if there is none) -/
+  | objMode (m : String) (k : Nat)
+  /-- `GlobalCache()['xsec_interpolation'] = k` -/
+  | gcInterp (k : Option Nat)
+  /-- `load_opacity(opacity_path = directory p, molecule_filter = [m])` -/
+  | loadOther (p : Nat) (m : String)
+  deriving DecidableEq, Repr
+
+def setMode (d : List (String × Obj)) (m : String) (k : Nat) : List (String × Obj) :=
+  d.map (fun e => if e.1 == m then (e.1, { e.2 with mode := k }) else e)
+
+def stepY (fs : List Dir) (s : CSt) : YOp → CSt × Resp
+  | .x op => stepX fs s op
+  | .objMode m k => ({ s with dict := setMode s.dict m k }, .done)
+  | .gcInterp k => ({ s with interp := k }, .done)
+  | .loadOther _ m => ((step fs s (.get m)).1, .done)
+
+def runY (fs : List Dir) (s : CSt) (ops : List YOp) : CSt := ops.foldl (fun s op => (stepY fs s op).1) s
+
+def traceY (fs : List Dir) : CSt → List YOp → List Resp
+  | _, [] => []
+  | s, op :: ops => (stepY fs s op).2 :: traceY fs (stepY fs s op).1 ops
+
+/-- the k-table reading (`KTableCache.load_opacity` has the same unused `path`; its scan runs whether or not the molecule is
+    cached — `loadStepK` has no dictionary test — where the cross-section scan of a cached molecule constructs nothing, so
+    that `(step fs s (.get m)).1` above is that scan in either case) -/
+def stepYK (fs : List Dir) (s : CSt) : YOp → CSt × Resp
+  | .x op => stepXK fs s op
+  | .loadOther _ m => (loadFromK fs m s, .done)
+  | op => stepY fs s op
+
+def runYK (fs : List Dir) (s : CSt) (ops : List YOp) : CSt := ops.foldl (fun s op => (stepYK fs s op).1) s
+
 end Taurex.CacheSM
